@@ -9,6 +9,7 @@ import NflowsModel.Lemmas.CubicWhole
 import NflowsModel.Lemmas.QuadWhole
 import NflowsModel.Lemmas.TailsWhole
 import NflowsModel.Lemmas.QuadInverseWhole
+import NflowsModel.Lemmas.StructureExecRQTails
 /-!
 # C17 — out-of-domain inputs are rejected, in-domain inputs never fail
 
@@ -176,5 +177,12 @@ theorem quad_inverse_in_domain_total (e : Float → ℝ) (c : QCfg) (uw uh : Lis
   rcases hv with hv | hv
   · exact ⟨_, QuadInverseWhole.exec_ok hv y hy0 hy1⟩
   · exact ⟨_, QuadInverseWhole.exec_ok_T hv y hy0 hy1⟩
+
+/-- **an executed RQ coupling layer with linear tails never raises**, in either direction, for any input and any conditioner
+    output (the layer the library's neural-spline flows are made of) -/
+theorem rq_tails_coupling_never_raises (e : Float → ℝ) (c : ElCfg) (hc : NF.StructureExec.RQTailsCfgValid e c) (mask : List ℝ)
+    (B S : Nat) (x params uparams : Array ℝ) (inverse : Bool) :
+    (couplingApply (NF.realX e) c mask B S x params inverse none uparams).err = none :=
+  NF.StructureExec.coupling_rq_tails_err_none e c hc mask B S x params uparams inverse
 
 end Properties.C17
